@@ -155,7 +155,7 @@ def _call(payload):
         return {"harness": "scenario crashed:\n" + traceback.format_exc()}
 
 
-def run_parallel(func_module, func_name, arg_list, workers=None, wall_cap=None, per_task_timeout=900):
+def run_parallel(func_module, func_name, arg_list, workers=None, wall_cap=None, per_task_timeout=900, stop_when=None):
     """Run func(*args) for every args in arg_list in forked workers.
 
     Yields (args, outcome) as they complete.  Stops submitting when wall_cap
@@ -196,4 +196,6 @@ def run_parallel(func_module, func_name, arg_list, workers=None, wall_cap=None, 
                 except Exception as this_exception:  # worker died
                     outcome = {"harness": "worker failure: %r" % (this_exception,)}
                 results.append((args, outcome))
+                if stop_when is not None and not capped and stop_when(outcome):
+                    capped = True  # sensitivity campaigns only: one hit is enough
     return results, capped
